@@ -266,6 +266,29 @@ theorem C11_lookup_wildcard (before after : Table) (d : OptDecl) (h body tl : By
     lookup (before ++ d :: after) (h ++ (body ++ tl)) = some (d, some body) :=
   lookup_by_wildcard hname hh hbody hn hb hs
 
+/-- the same for **every** pattern of the option — primary name or any synonym, of any shape (head
+and tail lengths differing from the primary's, empty tail, empty head): the key `head body tail`
+written with the pattern `head*tail` resolves to the option and the recorded key body (the address
+of the entry the setter/getter see through `wc_keybody_last()`) is exactly `body`; the condition is
+that no pattern listed earlier for the same option matches the key (then that one would cut it). -/
+theorem C11_lookup_wildcard_any_pattern (before after : Table) (d : OptDecl) (pre post : List (Bytes × Bytes))
+    (h body tl : Bytes) (hht : d.headTails = pre ++ (h, tl) :: post) (hbody : body ≠ [])
+    (hpre : ∀ ht ∈ pre, wcMatch1 ht (h ++ (body ++ tl)) = none)
+    (hn : ∀ e ∈ before ++ d :: after, ciEq e.name (h ++ (body ++ tl)) = false)
+    (hb : ∀ e ∈ before, e.syns.any (fun s => ciEq (h ++ (body ++ tl)) s) = false ∧
+                        wcMatch e.headTails (h ++ (body ++ tl)) = none)
+    (hs : d.syns.any (fun s => ciEq (h ++ (body ++ tl)) s) = false) :
+    lookup (before ++ d :: after) (h ++ (body ++ tl)) = some (d, some body) :=
+  lookup_by_wildcard_pattern hht hbody hpre hn hb hs
+
+/-- every synonym pattern `head*tail` of a wildcard option is among the patterns tried, with
+exactly this head and tail (so the previous theorem applies to it), and a single pattern cuts the
+key `head body tail` to `body` whatever the shapes of the other patterns -/
+theorem C11_wildcard_synonym_pattern (d : OptDecl) (hw : d.isWildcard = true) (syn h tl body : Bytes)
+    (hsyn : syn ∈ d.syns) (hpat : syn = h ++ star :: tl) (hh : ∀ c ∈ h, c ≠ star) (hbody : body ≠ []) :
+    (h, tl) ∈ d.headTails ∧ wcMatch1 (h, tl) (h ++ (body ++ tl)) = some body :=
+  ⟨headTails_mem hw (Or.inr hsyn) hpat hh, wcMatch1_pattern h body tl hbody⟩
+
 /-! ## memory safety of the tokeniser: reads bounded by the terminating NUL
 
 History: before ampl/mp 7d345ba `SkipToMatchingQuote` was `while (*s != quote) ++s; return ++s;`.
@@ -380,6 +403,9 @@ example : parseStr cxCfg [120, 61, 39, 97, 98] cxSt0 =
     (.ok, { slots := [{ val := .str [97, 98] }, { val := .int 0 }] }) := by
   rw [parseStr_cont (s' := []) (st' := { slots := [{ val := .str [97, 98] }, { val := .int 0 }] }) (by rfl)]
   exact parseStr_done (by rfl)
+-- option `obj:*:priority obj_*_priority objpri*`, key `objpri3`: the body is `3` (not `ri3`)
+example : (lookup (buildTable [{ id := 0, name := [111,98,106,58,42,58,112], syns := [[111,98,106,95,42,95,112], [111,98,106,112,114,105,42]], kind := .int }])
+    [111,98,106,112,114,105,51]).map (·.2) = some (some [51]) := by decide
 -- strtod extent: "1.5e3x" consumes 5 bytes, "0x" consumes 1, "nan(1)" consumes 6
 example : (parseDbl [49, 46, 53, 101, 51, 120]).2 = [120] := by decide
 example : (parseDbl [48, 120]).2 = [120] := by decide
